@@ -44,9 +44,9 @@ def main():
             continue
         rc, out = sh(f"nice -n 10 ninja -C {WT}/_build -j6 -k 0 2>&1 | tail -3")
         compiled = "FAILED" not in out or "GeantVolumeMapper" in out
-        rc2, out2 = sh(f"CELER_DISABLE_PARALLEL=1 ctest --test-dir {WT}/_build -j6 --timeout 900 -R '{AREA[pid]}' 2>&1 | tail -15")
+        rc2, out2 = sh(f"CELER_DISABLE_PARALLEL=1 ctest --test-dir {WT}/_build -j6 --timeout 900 -R '{AREA[pid]}' 2>&1 | tail -40")
         m = re.search(r"(\d+)% tests passed, (\d+) tests failed out of (\d+)", out2)
-        failed = re.findall(r"^\s+\d+ - (\S+) \(", out2, re.M)
+        failed = re.findall(r"^\s+\d+ - (\S+) \((?:Failed|Timeout|SEGFAULT|Subprocess aborted|Child aborted|Exception)", out2, re.M)
         failed = [f for f in failed if "MpiCommunicator" not in f]
         results[n] = {"done": True, "applies": True, "build_tail": out[-300:], "area_regex": AREA[pid],
                       "tests_total": int(m.group(3)) if m else None,
